@@ -64,7 +64,7 @@ template <class A> static Verdict run(const Fields &f, int *allocCalls, int *obj
       w.defaultMm = m;
       // which manager does this call use? in-place ops use the object's own
       UriMemoryManager *used = m;
-      if ((op.kind == 'N' || op.kind == 'O') && w.size()) used = w.at(((op.i % w.size()) + w.size()) % w.size()).mm;
+      if ((op.kind == 'N' || op.kind == 'O' || op.kind == 'D') && w.size()) used = w.at(((op.i % w.size()) + w.size()) % w.size()).mm;
       int fault = (int)f.geti("fault." + std::to_string(k));
       for (LedgerMM *lm : {&M.A, &M.B, &M.backend}) { lm->reset_plan(); if (fault > 0) { lm->requests = 0; lm->fail_at = (uint64_t)fault; } }
       L.fail_at = 0;
